@@ -124,7 +124,11 @@ def check(space, state):
                     _, add, _sub = specs[len(specs) + i]
                     # a difference: whatever the partition reports as its sum, over the same total
                     v = pub[pos] if _sub else sum(base[a] for a in add)
-                exp.append(SKIP if tot == 0 else (v / tot if v == v else NANF))
+                if tot == 0:
+                    exp.append(SKIP if i < 0 else
+                               (NANF if (v != v or v == 0) else (float("inf") if v > 0 else float("-inf"))))
+                else:
+                    exp.append(v / tot if v == v else NANF)
             cmp("strand.share_sum", "", part.share_sum, exp)
             if tot != 0:
                 asserted += 1
@@ -157,7 +161,14 @@ def check(space, state):
             if I in diff_r or J in diff_c:
                 v = float(pubs[ro.index(I), co.index(J)])      # a difference: its public sum
             if den == 0:
-                return SKIP
+                # a total that cancels to exactly zero: for a BASE cell x/0 is +-inf (a value), 0/0 and NaN/0 are
+                # NaN; for a subtotal "sum over total" and "sum of the addends' shares" disagree there (inf vs
+                # inf + NaN): unasserted
+                if I >= nr or J >= nc:
+                    return SKIP
+                if v != v or v == 0:
+                    return NANF
+                return float("inf") if v > 0 else float("-inf")
             return v / den if v == v else NANF
 
         def blk(I, J):
